@@ -36,3 +36,17 @@ class Slotted(object):
 
     def __repr__(self):
         return "Slotted(%s, %s)" % (self.a, self.b)
+
+
+class NoTruthValue(object):
+    """numpy-like: asking for its truth value is an error"""
+
+    def __bool__(self):
+        raise ValueError("the truth value of this object is ambiguous")
+
+
+class LenNeedsFields(object):
+    """a container bean whose __len__ reads a field the descriptor did not carry"""
+
+    def __len__(self):
+        return len(self.items)
